@@ -125,6 +125,17 @@ def live_op(s):
         return ("other:" + type(e).__name__,)
 
 
+def _big(s):
+    """some number in the text exceeds 1e5: float addition then no longer keeps 1e-7 of the fractional part"""
+    for tok in re.findall(r"(?:\d+\.?\d*|\.\d+)(?:[eE][-+]?\d+)?", s.replace(" ", "")):
+        try:
+            if abs(float(tok)) > 1e5:
+                return True
+        except ValueError:
+            pass
+    return False
+
+
 def _close(q, f, mod1):
     if not math.isfinite(f):
         return None
@@ -177,7 +188,7 @@ def compare(ctx, tparts, ops, res):
         ctx.count(("op", lv[0]))
         if lv[0] == "ok":
             ok = m[0] == 0 and m[1:10] == lv[1] and lv[3] == [float(v) for v in lv[1]]
-            if ok and re.search(r"[eE][-+]?\d{2,}|\d{10,}", s.replace(" ", "")):
+            if ok and (re.search(r"[eE][-+]?\d{2,}|\d{10,}", s.replace(" ", "")) or _big(s)):
                 skipped += 1        # magnitudes at which float addition no longer keeps the fraction
             elif ok:
                 for i in range(3):
